@@ -377,7 +377,9 @@ func tokenize(src string) []token {
 							}
 						}
 					case tIdent:
-						block = !(p.s == "return" || p.s == "typeof" || p.s == "in" || p.s == "of" || p.s == "instanceof" || p.s == "new" || p.s == "void" || p.s == "delete" || p.s == "throw" || p.s == "case" || p.s == "yield" || p.s == "await")
+						// after var / let / const / import / export a "{" opens a binding pattern or a name list, not a block
+						block = !(p.s == "return" || p.s == "typeof" || p.s == "in" || p.s == "of" || p.s == "instanceof" || p.s == "new" || p.s == "void" || p.s == "delete" || p.s == "throw" || p.s == "case" || p.s == "yield" || p.s == "await" ||
+							p.s == "var" || p.s == "let" || p.s == "const" || p.s == "import" || p.s == "export")
 					case tTemplate:
 						block = p.tmpl == 0 || p.tmpl == 3 // after a complete template only ASI + block is possible
 					default:
